@@ -9,7 +9,6 @@ pub static SIGNATURES: &[(&str, FindingPred)] = &[
   ("R5", r5_bsd),
   ("R5", r5_cone_miss),
   ("R17", r17_tiny_polygon),
-  ("R21", r21_exact_lon0),
 ];
 
 /// The table SMALLER_EDGE2OPEDGE_DIST as it was when R5 was recorded (values observed by bisection on the public
@@ -65,20 +64,4 @@ fn r17_tiny_polygon(sig: &str, c: &Case) -> bool {
     "reported-cell-farther-than-R+2-cell-radii", "polygon-vertex-cell-missing"];
   if !known_sigs.contains(&sig) { return false; }
   c.gf("R") < 1e-6
-}
-
-/// R21 — exact mode, edge crossing lon = 0 inside a polar cap: arc_special_point_in_pc builds the sub-arc of the
-/// first quarter with the normal of the wrong meridian plane; the "special point" may lie on the great circle beyond
-/// the end of the edge and its cell is added to the coverage (a cell too far from the polygon). In debug builds the
-/// debug assertions of that very branch (special_points_finder.rs, "Cross lon = 0") fire on the same arcs.
-fn r21_exact_lon0(sig: &str, c: &Case) -> bool {
-  if c.mon() != "poly" || !c.gb("exact") { return false; }
-  let far = sig == "reported-cell-farther-than-R+2-cell-radii";
-  let dbg = sig == "polygon_coverage-panics" && c.get("at").unwrap_or("").contains("special_points_finder.rs") && { let m = c.get("msg").unwrap_or(""); m.contains("p2.lon()_<_intersect2.lon()") || m.contains("p1.lon()_<_intersect1.lon()") };
-  if !far && !dbg { return false; }
-  let (vl, vb) = (c.gfl("vl"), c.gfl("vb"));
-  let n = vl.len();
-  let crosses0 = n >= 2 && (0..n).any(|i| (vl[i] - vl[(i + 1) % n]).abs() > std::f64::consts::PI); // an edge crosses lon = 0
-  let in_cap = vb.iter().any(|&b| b.abs() > TRANS_LAT);
-  crosses0 && in_cap
 }
